@@ -278,14 +278,14 @@ def run_check(pid, tier, seed):
         report.k1_diffs.extend(kdiffs)
         evaluations += direct_stats.get('pairs', direct_stats.get('cases', 0)) or sum(v for v in direct_stats.values() if isinstance(v, int))
     # a broken correspondence without a failing input is still a violation
-    if report.k1_diffs and not k2_failures:
+    if report.k1_diffs and not [v for v in report.violations if v[3]]:
         d0 = report.k1_diffs[0]
         report.fail('k1:' + d0['stream'], 'K1 correspondence broken on %d case(s) (model and /repo disagree under view); first: %s'
                     % (len(report.k1_diffs), d0['detail'][:300]),
                     dict(correspondence='K1 ' + d0['stream'], cases=report.k1_diffs[:5]), found_input=False)
     rc = report.finish()
     n_obl = len(obl) + len(P['streams']) + (1 if P.get('direct') else 0)
-    n_ok = sum(1 for o in obl if o['ok']) + sum(1 for st in P['streams'] if not [d for d in report.k1_diffs if d['stream'] == st['name']]) + (1 if P.get('direct') and not [f for f in k2_failures if str(f.get('key', '')).startswith('c1')] else 0)
+    n_ok = sum(1 for o in obl if o['ok']) + sum(1 for st in P['streams'] if not [d for d in report.k1_diffs if d['stream'] == st['name']]) + (1 if P.get('direct') and not [v for v in report.violations if str(v[0]).startswith('c1')] else 0)
     cov = dict(obligations=max(1, n_obl), discharged=n_ok,
                checker_cmd='./build.sh (coq_makefile + make: full .vo build) ; coqc _build/obl_%s.v (Print Assumptions) ; tools/k1.py view=%s' % (pid, ','.join(st['view'] for st in P['streams'])),
                trusted_base=vlib.TRUSTED_BASE,
@@ -293,11 +293,12 @@ def run_check(pid, tier, seed):
                evaluations=evaluations, distinct_nontrivial=distinct,
                rule='K1: seeded structured derive inputs (valid + one-invalid-construct); distinct_nontrivial = number of distinct non-empty real expansions',
                k1=dict((k, v) for k, v in sorted(stats.items())), k2=k2_stats, direct=direct_stats,
-               samples=samples or [dict(note='no sample')])
+               samples=samples or [dict(note='no sample')], known_findings_reproduced=sorted(report.known_hit.keys()))
     vlib.write_evidence(pid, tier, seed, 'proof', cov,
                         ['field types and user methods are arbitrary (universally quantified interp)',
                          'equality of flattened token sequences stands for equality of generated code'],
                         time.time() - t0, len(report.violations))
+
     print('%s %s tier=%s seed=%d: obligations %d/%d, K1 %s, k2 %s, %.0fs' %
           (pid, 'OK' if rc == 0 else 'FAILED', tier, seed, n_ok, n_obl,
            dict((k, v) for k, v in stats.items() if k.startswith('k1_')), k2_stats, time.time() - t0))
